@@ -757,34 +757,34 @@ std::string Interp::execView(const std::string& op, int want, const std::vector<
         View& v = view(a[0], 'R');
         DOMRange* r = v.rg;
         const std::string& m = a[1];
-        if (m == "get") {
-            std::string s = "r:" + ref(r->getStartContainer()) + "," + itos((long long)r->getStartOffset()) + "," + ref(r->getEndContainer()) + "," +
-                            itos((long long)r->getEndOffset()) + "," + (r->getCollapsed() ? "1" : "0");
-            return s;
-        }
+        struct St { static std::string of(Interp* I, DOMRange* r) {
+            return "r:" + I->ref(r->getStartContainer()) + "," + itos((long long)r->getStartOffset()) + "," + I->ref(r->getEndContainer()) + "," +
+                   itos((long long)r->getEndOffset()) + "," + (r->getCollapsed() ? "1" : "0"); } };
+        if (m == "get") return St::of(this, r);
         if (m == "cac") return ref(r->getCommonAncestorContainer());
-        if (m == "setStart") { NEEDV(4); r->setStart(node(a[2]), num(a[3])); return "-"; }
-        if (m == "setEnd") { NEEDV(4); r->setEnd(node(a[2]), num(a[3])); return "-"; }
-        if (m == "setStartBefore") { NEEDV(3); r->setStartBefore(node(a[2])); return "-"; }
-        if (m == "setStartAfter") { NEEDV(3); r->setStartAfter(node(a[2])); return "-"; }
-        if (m == "setEndBefore") { NEEDV(3); r->setEndBefore(node(a[2])); return "-"; }
-        if (m == "setEndAfter") { NEEDV(3); r->setEndAfter(node(a[2])); return "-"; }
-        if (m == "collapse") { NEEDV(3); r->collapse(a[2] == "1"); return "-"; }
-        if (m == "selectNode") { NEEDV(3); r->selectNode(node(a[2])); return "-"; }
-        if (m == "selectNodeContents") { NEEDV(3); r->selectNodeContents(node(a[2])); return "-"; }
+        if (m == "setStart") { NEEDV(4); r->setStart(node(a[2]), num(a[3])); return St::of(this, r); }
+        if (m == "setEnd") { NEEDV(4); r->setEnd(node(a[2]), num(a[3])); return St::of(this, r); }
+        if (m == "setStartBefore") { NEEDV(3); r->setStartBefore(node(a[2])); return St::of(this, r); }
+        if (m == "setStartAfter") { NEEDV(3); r->setStartAfter(node(a[2])); return St::of(this, r); }
+        if (m == "setEndBefore") { NEEDV(3); r->setEndBefore(node(a[2])); return St::of(this, r); }
+        if (m == "setEndAfter") { NEEDV(3); r->setEndAfter(node(a[2])); return St::of(this, r); }
+        if (m == "collapse") { NEEDV(3); r->collapse(a[2] == "1"); return St::of(this, r); }
+        if (m == "selectNode") { NEEDV(3); r->selectNode(node(a[2])); return St::of(this, r); }
+        if (m == "selectNodeContents") { NEEDV(3); r->selectNodeContents(node(a[2])); return St::of(this, r); }
         if (m == "cmp") { NEEDV(4); View& o = view(a[3], 'R'); return "i:" + itos(r->compareBoundaryPoints((DOMRange::CompareHow)num(a[2]), o.rg)); }
-        if (m == "delete") { r->deleteContents(); return "-"; }
+        if (m == "delete") { r->deleteContents(); return St::of(this, r); }
         if (m == "toString") { return "s:" + esc(r->toString()); }
         if (m == "detach") { r->detach(); return "-"; }
         if (m == "release") { r->release(); v.kind = 0; return "-"; }
-        if (m == "insertNode") { NEEDV(3); r->insertNode(node(a[2])); return "-"; }
-        if (m == "surround") { NEEDV(3); r->surroundContents(node(a[2])); return "-"; }
+        if (m == "insertNode") { NEEDV(3); r->insertNode(node(a[2])); return St::of(this, r); }
+        if (m == "surround") { NEEDV(3); r->surroundContents(node(a[2])); return St::of(this, r); }
         if (m == "extract" || m == "cloneContents" || m == "cloneRange") {
             if (m == "extract") return result(r->extractContents(), want);
             if (m == "cloneContents") return result(r->cloneContents(), want);
             NEEDV(3);
             DOMRange* c = r->cloneRange();
-            View& nv = newView(a[2]); nv.kind = 'R'; nv.rg = c; nv.doc = v.doc;
+            int vdoc = v.doc;                       // (newView may reallocate the table: v is dead afterwards)
+            View& nv = newView(a[2]); nv.kind = 'R'; nv.rg = c; nv.doc = vdoc;
             return "-";
         }
         throw std::string("ARGS:rg");
